@@ -446,6 +446,25 @@ def entry_ctor(prog: Program) -> RuleResult:
 
         return oracle
 
+    # third convention: value and tags only (the policies default): must not be mistaken for the policies-only form
+    def oracle_plain(expr: ast.AST, env) -> Optional[bool]:
+        if isinstance(expr, ast.Compare) and len(expr.ops) == 1 and isinstance(expr.ops[0], (ast.Is, ast.IsNot, ast.Eq, ast.NotEq)):
+            left, right = expr.left, expr.comparators[0]
+            if isinstance(right, ast.Constant) and right.value is None and isinstance(left, ast.Name) and left.id in (p_merge, p_ret):
+                return isinstance(expr.ops[0], (ast.Is, ast.Eq))
+        if isinstance(expr, ast.Call) and dotted(expr.func) == "isinstance" and len(expr.args) == 2 and isinstance(expr.args[0], ast.Name) and expr.args[0].id in (p_val, p_infos):
+            return False
+        return None
+
+    out3 = run_cases(init.body, oracle_plain, where="Entry.__init__[value-and-tags]")
+    f3 = {t.attr: v for t, v in out3.stores if isinstance(t, ast.Attribute) and dotted(t.value) == "self"}
+    construct = f"{DP}:Entry.__init__/value-and-tags/_value"
+    got3 = f3.get("_value")
+    if isinstance(got3, ast.Name) and got3.id == p_val:
+        res.ok(construct, "a plain value with default policies stays a value")
+    else:
+        res.fail(construct, f"Entry(value, tags) without policies stores `{short(got3)}` as its value: a plain value is mistaken for a merge policy", mod, init)
+
     for form, short_form in (("policies-only", True), ("explicit", False)):
         out = run_cases(init.body, make_oracle(short_form), where=f"Entry.__init__[{form}]")
         fields: Dict[str, ast.AST] = {}
@@ -501,13 +520,22 @@ ENUMERATORS = [
     ("compute.super_reconciliation", "_decode_spfs_table"),
     ("compute.unordered_super_reconciliation", "_decode_uspfs_table"),
     (MODEL, "ReconciliationInput.binarize"),
+    # the loops that offer candidates to the tables are enumerations too
+    ("compute.reconciliation", "_compute_thl_table"),
+    ("compute.reconciliation", "_compute_thl_try_speciation"),
+    ("compute.reconciliation", "_compute_thl_try_duplication_transfer"),
+    ("compute.super_reconciliation", "_compute_spfs_table"),
+    ("compute.super_reconciliation", "_compute_spfs_entry"),
+    ("compute.unordered_super_reconciliation", "_compute_uspfs_table"),
+    ("compute.unordered_super_reconciliation", "_compute_uspfs_entry"),
 ]
 
 
 def enum_no_truncation(prog: Program) -> RuleResult:
     res = RuleResult(
         "ENUM-NO-TRUNCATION",
-        "an enumerator (all orderings, all trees, all refinements, all reconciliations, all decodings) has no "
+        "an enumerator (all orderings, all trees, all refinements, all reconciliations, all decodings, the candidate "
+        "loops that fill the tables) has no "
         "early stop: no `break` out of a loop that accumulates or yields results and no count limit "
         "(`len(results) >= k`, islice, slicing by a limit); its result is the whole enumeration",
     )
@@ -740,10 +768,21 @@ def copy_faithful(prog: Program) -> RuleResult:
                     bad.append(call)
                 elif not isinstance(method, ast.Constant):
                     raise AnalysisError(f"{key}: copy method `{short(method)}` is not a literal")
+        # copy.deepcopy / copy.copy of a tree node follows its `up` link: a clade stays attached to a clone of its parent
+        attached = []
+        for qual, fn in prog.defs(mod.name).items():
+            if not isinstance(fn, FuncNode):
+                continue
+            for call in walk_no_nested(fn):
+                if isinstance(call, ast.Call) and (dotted(call.func) or "").split(".")[-1] in ("deepcopy",) and call.args and _tree_typed(fn, call.args[0]):
+                    attached.append((qual, call))
+        for i, (qual, call) in enumerate(attached):
+            n += 1
+            res.fail(f"{key}:{qual}/attached-copy#{i}", f"`{short(call)}` deep-copies a tree node with the generic copier: the copy keeps (a clone of) everything above the node, whereas `.copy()` returns a detached subtree", mod, call)
         if bad:
             for i, call in enumerate(bad):
                 res.fail(f"{key}:{_enclosing_function(prog, mod, call)}/lossy-copy#{i}", f"`{short(call)}` copies through a newick string: labels with reserved characters are rewritten and attributes are dropped", mod, call)
-        else:
+        elif not attached:
             res.ok(f"{key}:<module>/copies", f"{n} copy call(s), all lossless", nontrivial=n > 0)
     return res
 
@@ -779,7 +818,25 @@ def width_verbatim(prog: Program) -> RuleResult:
             if arg is None:
                 raise AnalysisError(f"{construct}: width argument not found")
             if isinstance(arg, ast.Attribute) and arg.attr.endswith("_width"):
-                res.ok(construct, f"`{short(arg)}`")
+                # which label is being wrapped: a synteny (event label) or the name of a species
+                want = None
+                if name == "format_synteny":
+                    want = "event_label_width"
+                else:
+                    text = call.args[0] if call.args else None
+                    seen_names = 0
+                    while isinstance(text, ast.Name) and seen_names < 4:
+                        seen_names += 1
+                        defs = [d for d in walk_no_nested(fn) if isinstance(d, ast.Assign) and any(isinstance(t, ast.Name) and t.id == text.id for t in d.targets) and not any(c is call for c in ast.walk(d))]
+                        if len(defs) != 1:
+                            break
+                        text = defs[0].value
+                    if text is not None and any(isinstance(x, ast.Attribute) and x.attr == "name" for x in ast.walk(text)):
+                        want = "species_label_width"
+                if want is not None and arg.attr != want:
+                    res.fail(construct, f"the {'synteny' if want.startswith('event') else 'species'} label is wrapped against `{short(arg)}`; its own width is `{want}` (the two differ by default: 18 / 21)", mod, call)
+                else:
+                    res.ok(construct, f"`{short(arg)}`")
                 continue
             if isinstance(arg, ast.Name) and arg.id in func_params(fn):
                 rebinds = [
@@ -1480,8 +1537,8 @@ def cli_flow_table(prog: Program) -> RuleResult:
                             else:
                                 costcall = next(x for a in prints[0].args for x in ast.walk(a) if isinstance(x, ast.Call) and isinstance(x.func, ast.Attribute) and x.func.attr == "cost")
                                 src = costcall.func.value
-                                if not (isinstance(src, ast.Subscript) and isinstance(src.slice, ast.Constant) and isinstance(src.slice.value, int) and mentions(src.value, "algorithms")):
-                                    problems.append(f"the printed cost `{short(costcall, 80)}` is not the cost of a returned solution")
+                                if not (isinstance(src, ast.Subscript) and isinstance(src.slice, ast.Constant) and src.slice.value in (0, -1) and mentions(src.value, "algorithms")):
+                                    problems.append(f"the printed cost `{short(costcall, 80)}` is not the cost of a solution that always exists in a non-empty result (first or last)")
                                 to_err = any(kw.arg == "file" and mentions(kw.value, "stderr") for kw in prints[0].keywords)
                                 if not to_err:
                                     problems.append("the minimum cost is printed on the output stream, inside the JSON documents")
@@ -1579,14 +1636,19 @@ FILL_FUNCTIONS = [
 ORDER_PREDICATES = {"is_ancestor_of", "is_strict_ancestor_of", "is_comparable"}
 
 
-def _guard_kind(fn: ast.AST, test: ast.AST, depth: int = 0) -> Optional[str]:
-    """Kind of a guard that cannot exclude a finite valid candidate, or None."""
+def _guard_kind(fn: ast.AST, test: ast.AST, pol: bool = True, depth: int = 0) -> Optional[str]:
+    """Kind of a guard that cannot exclude a finite valid candidate when it evaluates to `pol`, or None."""
     if depth > 4:
         return None
     if isinstance(test, ast.UnaryOp) and isinstance(test.op, ast.Not):
-        return _guard_kind(fn, test.operand, depth + 1)
+        return _guard_kind(fn, test.operand, not pol, depth + 1)
     if isinstance(test, ast.BoolOp):
-        kinds = [_guard_kind(fn, v, depth + 1) for v in test.values]
+        conj = isinstance(test.op, ast.And)
+        if conj == pol:
+            kinds = [_guard_kind(fn, v, pol, depth + 1) for v in test.values]
+        else:
+            # only a disjunction of the facts is known: each part must be harmless either way
+            kinds = [(_guard_kind(fn, v, True, depth + 1) and _guard_kind(fn, v, False, depth + 1)) for v in test.values]
         return "+".join(sorted(set(kinds))) if all(kinds) else None
     if isinstance(test, ast.Call) and isinstance(test.func, ast.Attribute):
         if test.func.attr == "is_leaf" and not test.args:
@@ -1594,13 +1656,15 @@ def _guard_kind(fn: ast.AST, test: ast.AST, depth: int = 0) -> Optional[str]:
         if test.func.attr in ORDER_PREDICATES:
             return "order predicate"
         if test.func.attr == "is_infinite":
-            return "infinity test"
+            # skipping an infinite candidate is harmless; offering candidates only while something is still
+            # infinite ("already solved, skip the rest") is a pruning argument
+            return "infinity test" if not pol else None
     if isinstance(test, ast.Call) and dotted(test.func) == "is_infinite":
-        return "infinity test"
+        return "infinity test" if not pol else None
     if isinstance(test, ast.Name):
         defs = [a for a in walk_no_nested(fn) if isinstance(a, ast.Assign) and any(isinstance(t, ast.Name) and t.id == test.id for t in a.targets)]
-        if defs and all(_guard_kind(fn, a.value, depth + 1) for a in defs):
-            return _guard_kind(fn, defs[0].value, depth + 1)
+        if defs and all(_guard_kind(fn, a.value, pol, depth + 1) for a in defs):
+            return _guard_kind(fn, defs[0].value, pol, depth + 1)
         return None
     if isinstance(test, ast.Compare) and len(test.ops) == 1:
         sides = [test.left, test.comparators[0]]
@@ -1612,9 +1676,13 @@ def _guard_kind(fn: ast.AST, test: ast.AST, depth: int = 0) -> Optional[str]:
     return None
 
 
-def _dominating_tests(fn: ast.AST, node: ast.AST) -> List[Tuple[ast.AST, bool]]:
-    """`guards` plus the early exits (`if T: continue / return`) that precede the statement in its enclosing blocks."""
-    out = list(guards(fn, node))
+def _dominating_tests(fn: ast.AST, node: ast.AST) -> List[Tuple[ast.AST, Optional[bool]]]:
+    """`guards` plus the early exits that precede the statement in its enclosing blocks.
+
+    (test, True/False): the test has that value whenever the statement runs;
+    (test, None): the statement is skipped on SOME path on which the test matters (a conditional
+    `continue` / `return` nested in an earlier statement): the test must be harmless either way."""
+    out: List[Tuple[ast.AST, Optional[bool]]] = list(guards(fn, node))
     cur = node
     parents: Dict[int, ast.AST] = {}
     for parent in ast.walk(fn):
@@ -1630,6 +1698,20 @@ def _dominating_tests(fn: ast.AST, node: ast.AST) -> List[Tuple[ast.AST, bool]]:
                         break
                     if isinstance(st, ast.If) and not st.orelse and always_exits(st.body):
                         out.append((st.test, False))
+                        continue
+                    # exits nested deeper in an earlier statement
+                    stack = [(st, False)]
+                    while stack:
+                        sub, in_loop = stack.pop()
+                        for child in ast.iter_child_nodes(sub):
+                            if isinstance(child, FuncNode + (ast.Lambda,)):
+                                continue
+                            inner_loop = in_loop or isinstance(sub, (ast.For, ast.While))
+                            if isinstance(child, ast.Return) or (isinstance(child, (ast.Continue, ast.Break)) and not inner_loop):
+                                for g, _p in guards(fn, child):
+                                    if any(n is g for n in ast.walk(st)):
+                                        out.append((g, None))
+                            stack.append((child, inner_loop))
         cur = parent
     return out
 
@@ -1663,8 +1745,11 @@ def candidate_guards(prog: Program) -> RuleResult:
         bad = None
         kinds: Set[str] = set()
         for sink in sinks:
-            for test, _pol in _dominating_tests(fn, sink):
-                kind = _guard_kind(fn, test)
+            for test, pol_ in _dominating_tests(fn, sink):
+                if pol_ is None:
+                    kind = _guard_kind(fn, test, True) and _guard_kind(fn, test, False)
+                else:
+                    kind = _guard_kind(fn, test, pol_)
                 if kind is None:
                     bad = (sink, test)
                     break
@@ -1681,7 +1766,474 @@ def candidate_guards(prog: Program) -> RuleResult:
     return res
 
 
+# ---------------------------------------------------------------------------
+# MASK-RANGE
+
+
+def mask_range(prog: Program) -> RuleResult:
+    from ..sym import Poly
+    from .ancestry import _Pow2Norm
+
+    res = RuleResult(
+        "MASK-RANGE",
+        "in both ordered drivers the candidate syntenies of every object node other than the root are ALL "
+        "subsequences of the root order: `range(2 ** len(order))` (or the same from 1 - the empty mask is never "
+        "feasible); only the root may be restricted to the complete sequence.  The polarity of the root test "
+        "decides which of the two every ancestral node gets",
+    )
+    modname = "compute.super_reconciliation"
+    mod = prog.module(modname)
+    norm = _Pow2Norm()
+    n = 0
+    for qual in ("sreconcile_base_spfs", "sreconcile_extended_spfs"):
+        fn = prog.func(modname, qual)
+        input_param = func_params(fn)[0]
+        # the callable that enumerates candidate syntenies: the two-parameter lambda handed to the driver whose body
+        # builds masks (a `range(...)` or the complete mask)
+        lambdas = [
+            v for c in calls_in(fn) for v in list(c.args) + [kw.value for kw in c.keywords]
+            if isinstance(v, ast.Lambda) and len(v.args.args) == 2
+            and any(isinstance(x, ast.Call) and (dotted(x.func) == "range" or (dotted(x.func) or "").endswith("subseq_complete")) for x in ast.walk(v.body))
+        ]
+        if len(lambdas) != 1:
+            raise AnalysisError(f"{qual}: the lambda enumerating candidate syntenies was not found")
+        lam = lambdas[0]
+        lparams = [a.arg for a in lam.args.args]
+        if len(lparams) != 2:
+            raise AnalysisError(f"{qual}: allowed_syntenies does not take (ordering, object)")
+        p_order, p_obj = lparams
+        construct = f"{modname}:{qual}/non-root-masks"
+        n += 1
+
+        def is_root_test(test: ast.AST) -> Optional[bool]:
+            """polarity: True when `test` holds exactly for the root object"""
+            if isinstance(test, ast.UnaryOp) and isinstance(test.op, ast.Not):
+                inner = is_root_test(test.operand)
+                return None if inner is None else not inner
+            if isinstance(test, ast.Compare) and len(test.ops) == 1 and isinstance(test.ops[0], (ast.Eq, ast.Is, ast.NotEq, ast.IsNot)):
+                sides = {dotted(test.left), dotted(test.comparators[0])}
+                if p_obj in sides and f"{input_param}.object_tree" in sides:
+                    return isinstance(test.ops[0], (ast.Eq, ast.Is))
+            if isinstance(test, ast.Call) and isinstance(test.func, ast.Attribute) and test.func.attr == "is_root" and dotted(test.func.value) == p_obj:
+                return True
+            return None
+
+        body = lam.body
+        non_root = body
+        if isinstance(body, ast.IfExp):
+            pol = is_root_test(body.test)
+            if pol is None:
+                raise AnalysisError(f"{construct}: test `{short(body.test)}` is not a root test")
+            non_root = body.orelse if pol else body.body
+        ok = False
+        if isinstance(non_root, ast.Call) and dotted(non_root.func) == "range" and 1 <= len(non_root.args) <= 2:
+            lo = non_root.args[0] if len(non_root.args) == 2 else ast.Constant(value=0)
+            hi = non_root.args[-1]
+            lo_ok = isinstance(lo, ast.Constant) and lo.value in (0, 1)
+            hi_ok = norm.poly(hi) == Poly.atom(f"pow2[len({p_order})]")
+            ok = lo_ok and hi_ok
+        if ok:
+            res.ok(construct, f"`{short(non_root)}` for every node but the root")
+        else:
+            res.fail(construct, f"every object node other than the root is offered `{short(non_root)}` as candidate syntenies, not all 2**len({p_order}) subsequences of the root order: labellings with losses above the leaves are no longer searched", mod, lam)
+    return res
+
+
+# ---------------------------------------------------------------------------
+# TREE-ITER-EXPLICIT
+
+
+def _tree_typed(fn: ast.AST, expr: ast.AST, depth: int = 0) -> bool:
+    if depth > 3:
+        return False
+    if isinstance(expr, ast.Attribute) and expr.attr in ("object_tree", "tree", "species_tree", "gene_tree"):
+        return True
+    if isinstance(expr, ast.Name):
+        for a in fn.args.posonlyargs + fn.args.args + fn.args.kwonlyargs:  # type: ignore[attr-defined]
+            if a.arg == expr.id and a.annotation is not None and unparse(a.annotation) in ("Tree", "TreeNode", "PhyloTree", "Optional[Tree]"):
+                return True
+        defs = [d for d in walk_no_nested(fn) if isinstance(d, ast.Assign) and any(isinstance(t, ast.Name) and t.id == expr.id for t in d.targets)]
+        return bool(defs) and all(_tree_typed(fn, d.value, depth + 1) for d in defs)
+    if isinstance(expr, ast.Call) and dotted(expr.func) in ("Tree",):
+        return True
+    return False
+
+
+TREE_ITER_EXEMPT = {
+    # (module, function): reason - confirmed by reading
+    ("model.tree_mapping", "get_species_mapping"): "extracts the LEAF mapping (object leaves onto extant species) from leaf names: "
+    "iterating the leaves of both trees is what it wants",
+}
+
+
+def tree_iter_explicit(prog: Program) -> RuleResult:
+    res = RuleResult(
+        "TREE-ITER-EXPLICIT",
+        "a tree is never iterated, counted or materialised directly (`for x in tree`, a comprehension over `tree`, "
+        "`len(tree)`, `list(tree)`, `set(tree)`): ete3 then yields / counts the LEAVES only, so ancestral nodes "
+        "(internal species, the root entry of a mapping, names already in use) are silently skipped; every walk "
+        "names its traversal (`traverse`, `iter_leaves`, `iter_descendants`, ...)",
+    )
+    n = 0
+    for mod in sorted(prog.modules.values(), key=lambda m: m.relpath):
+        key = _modkey(mod)
+        bad = []
+        for qual, fn in prog.defs(mod.name).items():
+            if not isinstance(fn, FuncNode):
+                continue
+            for node in walk_no_nested(fn):
+                it = None
+                if isinstance(node, (ast.For, ast.comprehension)):
+                    it = node.iter
+                elif isinstance(node, ast.Call) and dotted(node.func) in ("len", "list", "set", "tuple", "sorted", "iter", "enumerate") and len(node.args) >= 1:
+                    it = node.args[0]
+                if it is None:
+                    continue
+                n += 1
+                if _tree_typed(fn, it):
+                    if (key, qual) in TREE_ITER_EXEMPT:
+                        res.ok(f"{key}:{qual}/direct-tree-iteration[exempt]", TREE_ITER_EXEMPT[(key, qual)], nontrivial=False)
+                        continue
+                    bad.append((qual, node if hasattr(node, "lineno") else it, it))
+        if bad:
+            for i, (qual, node, it) in enumerate(bad):
+                res.fail(f"{key}:{qual}/direct-tree-iteration#{i}", f"`{short(it)}` is iterated / counted directly: only its leaves are seen", mod, node)
+        else:
+            res.ok(f"{key}:<module>/tree-iteration", "every walk names its traversal")
+    if n < 50:
+        raise AnalysisError(f"TREE-ITER-EXPLICIT: only {n} iterations found in the package")
+    return res
+
+
+# ---------------------------------------------------------------------------
+# COST-NO-ROUNDING
+
+ROUNDERS = {"int", "round", "floor", "ceil", "trunc"}
+
+
+def cost_no_rounding(prog: Program) -> RuleResult:
+    res = RuleResult(
+        "COST-NO-ROUNDING",
+        "a unit cost is never rounded or truncated on its way from the command line to the recurrences: the parser "
+        "given as `type=` of the --cost-* options contains no int() / round() / floor / ceil / trunc, and no such "
+        "call is applied to a value derived from the cost vector in the solvers (fractional costs are legitimate; "
+        "the reported minimum must be the cost under the REQUESTED vector)",
+    )
+    cli = prog.module("cli.reconcile")
+    parsers: Set[str] = set()
+    for call in calls_in(cli.tree):
+        if isinstance(call.func, ast.Attribute) and call.func.attr == "add_argument":
+            flag = call.args[0] if call.args else None
+            is_cost = isinstance(flag, ast.JoinedStr) and any(isinstance(v, ast.Constant) and "cost" in str(v.value) for v in flag.values)
+            is_cost = is_cost or (isinstance(flag, ast.Constant) and "cost" in str(flag.value))
+            if is_cost:
+                t = kwarg(call, "type")
+                if t is not None and dotted(t):
+                    parsers.add(dotted(t))
+    if not parsers:
+        raise AnalysisError("COST-NO-ROUNDING: the `type=` parser of the cost options was not found")
+    for name in sorted(parsers):
+        construct = f"cli.reconcile:{name}/no-rounding"
+        if name in ("float", "eval", "Fraction", "Decimal"):
+            res.ok(construct, f"`{name}` keeps fractional values")
+            continue
+        if name in ROUNDERS:
+            res.fail(construct, f"cost options are parsed with `{name}`: fractional costs are truncated", cli, cli.tree)
+            continue
+        if not prog.has_func("cli.reconcile", name):
+            raise AnalysisError(f"{construct}: parser not resolved")
+        fn = prog.func("cli.reconcile", name)
+        bad = [c for c in walk_no_nested(fn) if isinstance(c, ast.Call) and (dotted(c.func) or "").split(".")[-1] in ROUNDERS]
+        if bad:
+            res.fail(construct, f"`{short(bad[0])}` rounds the requested cost (1.5 becomes 1): the tool then optimises and reports under another vector than the one asked for", cli, bad[0])
+        else:
+            res.ok(construct, "the parsed value is returned as it is")
+    solver_mods = ("compute.reconciliation", "compute.super_reconciliation", "compute.unordered_super_reconciliation", "compute.exhaustive")
+    table = _cost_taint_table(prog, solver_mods)
+    for modname in solver_mods:
+        mod = prog.module(modname)
+        bad = None
+        for qual, fn in prog.defs(modname).items():
+            if not isinstance(fn, FuncNode):
+                continue
+            tainted = table[(modname, qual)]
+            for c in walk_no_nested(fn):
+                if isinstance(c, ast.Call) and (dotted(c.func) or "").split(".")[-1] in ROUNDERS and any(_mentions_cost(a, tainted) for a in c.args):
+                    bad = (qual, c)
+        construct = f"{modname}:<module>/no-rounding"
+        if bad:
+            res.fail(f"{modname}:{bad[0]}/no-rounding", f"`{short(bad[1])}` rounds a value derived from the cost vector", mod, bad[1])
+        else:
+            res.ok(construct, "no rounding of cost-derived values")
+    return res
+
+
+# ---------------------------------------------------------------------------
+# GAIN-AT-LCA
+
+
+def gain_at_lca(prog: Program) -> RuleResult:
+    res = RuleResult(
+        "GAIN-AT-LCA",
+        "each family is gained at the lowest common ancestor of ALL the leaves that carry it: the LCA oracle of the "
+        "object tree is applied to the unpacked collection of carriers (`lca(*carriers)`), and that collection "
+        "receives, unconditionally, every leaf of `leaf_syntenies` for every family of its synteny - not two "
+        "representative leaves (`first`, `last`), whose choice depends on the listing order of the mapping",
+    )
+    modname = "compute.unordered_super_reconciliation"
+    mod = prog.module(modname)
+    fn = prog.func(modname, "_compute_gain_sets")
+    oracles = {
+        t.id for st in walk_no_nested(fn) if isinstance(st, ast.Assign) and isinstance(st.value, ast.Call) and (dotted(st.value.func) or "").endswith("LowestCommonAncestor")
+        for t in st.targets if isinstance(t, ast.Name)
+    }
+    if not oracles:
+        raise AnalysisError("_compute_gain_sets: LCA oracle of the object tree not found")
+    calls = [c for c in walk_no_nested(fn) if isinstance(c, ast.Call) and isinstance(c.func, ast.Name) and c.func.id in oracles]
+    if not calls:
+        raise AnalysisError("_compute_gain_sets: the LCA oracle is never applied")
+    for i, call in enumerate(calls):
+        construct = f"{modname}:_compute_gain_sets/gain-node#{i}"
+        if not (len(call.args) == 1 and isinstance(call.args[0], ast.Starred)):
+            res.fail(construct, f"the gain node is `{short(call)}`: the LCA of {len(call.args)} chosen leaves, not of all the carriers of the family", mod, call)
+            continue
+        coll = call.args[0].value
+        # the collection: loop variable of `for family, X in M.items()` or `M[family]`
+        container = None
+        if isinstance(coll, ast.Name):
+            for loop in loops_around(fn, call):
+                if isinstance(loop, ast.For) and isinstance(loop.target, ast.Tuple) and len(loop.target.elts) == 2 and dotted(loop.target.elts[1]) == coll.id:
+                    it = loop.iter
+                    if isinstance(it, ast.Call) and isinstance(it.func, ast.Attribute) and it.func.attr == "items":
+                        container = dotted(it.func.value)
+        elif isinstance(coll, ast.Subscript):
+            container = dotted(coll.value)
+        if container is None:
+            raise AnalysisError(f"{construct}: carrier collection `{short(coll)}` not recognised")
+        fills = [
+            c for c in walk_no_nested(fn)
+            if isinstance(c, ast.Call) and isinstance(c.func, ast.Attribute) and c.func.attr in ("add", "append") and isinstance(c.func.value, ast.Subscript) and dotted(c.func.value.value) == container
+        ]
+        ok = False
+        why = f"`{container}` is never filled with the carrier leaves"
+        for fill in fills:
+            lps = [l for l in loops_around(fn, fill) if isinstance(l, ast.For)]
+            outer = next((l for l in lps if isinstance(l.iter, ast.Call) and isinstance(l.iter.func, ast.Attribute) and l.iter.func.attr == "items" and (dotted(l.iter.func.value) or "").endswith("leaf_syntenies")), None)
+            if outer is None or not isinstance(outer.target, ast.Tuple):
+                why = "the carriers are not collected from every entry of leaf_syntenies"
+                continue
+            leaf_var, syn_var = (dotted(e) for e in outer.target.elts)
+            inner = next((l for l in lps if l is not outer and dotted(l.iter) == syn_var), None)
+            if inner is None:
+                why = "the carriers are not collected for every family of the synteny"
+                continue
+            if dotted(fill.func.value.slice) != dotted(inner.target) or not fill.args or dotted(fill.args[0]) != leaf_var:
+                why = f"`{short(fill)}` does not record the leaf under the family"
+                continue
+            if [g for g, _p in guards(fn, fill)]:
+                why = f"`{short(fill)}` is conditional"
+                continue
+            ok = True
+        if ok:
+            res.ok(construct, f"lca(*{container}[family]) with every carrier recorded")
+        else:
+            res.fail(construct, why, mod, call)
+    return res
+
+
+# ---------------------------------------------------------------------------
+# STALE-INPUT
+
+
+def stale_input(prog: Program) -> RuleResult:
+    res = RuleResult(
+        "STALE-INPUT",
+        "inside the loop over the binary refinements of the input, the drivers read the REFINEMENT: the original "
+        "(possibly multifurcating) input is not referenced in the loop body, and nothing computed from it before the "
+        "loop (gain sets, precedence graph, trees) is used inside - except in the `total=` of a progress bar.  Data "
+        "derived from the unrefined trees does not describe the nodes the refinement created",
+    )
+    for modname, qual in (("compute.super_reconciliation", "_spfs"), ("compute.unordered_super_reconciliation", "_uspfs")):
+        mod = prog.module(modname)
+        fn = prog.func(modname, qual)
+        original = func_params(fn)[0]
+        loops = []
+        for node in walk_no_nested(fn):
+            if isinstance(node, ast.For):
+                src = [c for c in ast.walk(node.iter) if isinstance(c, ast.Call) and isinstance(c.func, ast.Attribute) and c.func.attr == "binarize" and dotted(c.func.value) == original]
+                if src:
+                    loops.append(node)
+        if len(loops) != 1:
+            raise AnalysisError(f"{modname}:{qual}: loop over `{original}.binarize()` not found")
+        loop = loops[0]
+        construct = f"{modname}:{qual}/refinement-only"
+        # locals derived from the original input before the loop
+        derived: Set[str] = set()
+        for st in fn.body:
+            if st is loop:
+                break
+            for a in ast.walk(st):
+                if isinstance(a, ast.Assign) and any(isinstance(n, ast.Name) and n.id in derived | {original} for n in ast.walk(a.value)):
+                    derived |= {t.id for t in a.targets if isinstance(t, ast.Name)}
+        cosmetic: Set[int] = set()
+        for c in ast.walk(loop):
+            if isinstance(c, ast.Call):
+                for kw in c.keywords:
+                    if kw.arg in ("total", "desc"):
+                        cosmetic |= {id(n) for n in ast.walk(kw.value)}
+        bad = None
+        for st in loop.body:
+            for n in ast.walk(st):
+                if isinstance(n, ast.Name) and isinstance(n.ctx, ast.Load) and n.id in derived | {original} and id(n) not in cosmetic:
+                    bad = n
+                    break
+            if bad:
+                break
+        if bad is not None:
+            what = "the unrefined input" if bad.id == original else f"`{bad.id}`, computed from the unrefined input before the loop,"
+            res.fail(construct, f"{what} is used inside the loop over the refinements (`{short(mod.parent(bad) or bad, 80)}`)", mod, bad)
+        else:
+            res.ok(construct, f"the loop body reads `{dotted(loop.target)}` only (progress totals aside)")
+    return res
+
+
+# ---------------------------------------------------------------------------
+# HASH-CANONICAL, NODE-OPAQUE
+
+
+def hash_canonical(prog: Program) -> RuleResult:
+    res = RuleResult(
+        "HASH-CANONICAL",
+        "`__hash__` of the model classes is insensitive to the order in which a mapping was filled, like `__eq__`: "
+        "every `.items()` / `.keys()` / `.values()` it hashes is wrapped in `sorted(...)` or `frozenset(...)` (two "
+        "equal solutions produced by different algorithms must meet in a set - that is how ALL removes duplicates)",
+    )
+    n = 0
+    for modname in (MODEL,):
+        mod = prog.module(modname)
+        for qual, fn in prog.defs(modname).items():
+            if not isinstance(fn, FuncNode) or qual.split(".")[-1] != "__hash__":
+                continue
+            n += 1
+            construct = f"{modname}:{qual}/order-free"
+            bad = None
+            for call in walk_no_nested(fn):
+                if isinstance(call, ast.Call) and isinstance(call.func, ast.Attribute) and call.func.attr in ("items", "keys", "values"):
+                    if not any(isinstance(n_, ast.Name) and n_.id == "self" for n_ in ast.walk(call.func.value)):
+                        continue  # not instance data (e.g. the fixed member table of an enumeration)
+                    cur = call
+                    wrapped = False
+                    while True:
+                        par = mod.parent(cur)
+                        if par is None or par is fn:
+                            break
+                        if isinstance(par, ast.Call) and dotted(par.func) in ("sorted", "frozenset", "set", "sum", "len", "min", "max"):
+                            wrapped = True
+                            break
+                        cur = par
+                    if not wrapped:
+                        bad = call
+                        break
+            if bad is not None:
+                res.fail(construct, f"`{short(bad)}` is hashed in insertion order: equal objects whose mappings were filled in a different order hash differently", mod, bad)
+            else:
+                res.ok(construct, "mappings are hashed through sorted / frozenset")
+    if n < 2:
+        raise AnalysisError("HASH-CANONICAL: __hash__ methods of the model classes not found")
+    return res
+
+
+def node_opaque(prog: Program) -> RuleResult:
+    res = RuleResult(
+        "NODE-OPAQUE",
+        "the ordering routines treat vertices as opaque hashable values: no `sorted` / `.sort` / `min` / `max` and no "
+        "`<`-comparison is applied to vertices or vertex collections (a graph whose vertices are not mutually "
+        "orderable - mixed labels, tuples with None - must not raise)",
+    )
+    mod = prog.module(TOPO)
+    for qual, fn in prog.defs(TOPO).items():
+        if not isinstance(fn, FuncNode):
+            continue
+        construct = f"{TOPO}:{qual}/vertices-opaque"
+        gparams = [a.arg for a in fn.args.args if a.annotation is not None and "Node" in unparse(a.annotation)]
+        bad = None
+        for node in walk_no_nested(fn):
+            if isinstance(node, ast.Call) and (dotted(node.func) in ("sorted", "min", "max") or (isinstance(node.func, ast.Attribute) and node.func.attr == "sort")):
+                args = list(node.args) + ([node.func.value] if isinstance(node.func, ast.Attribute) else [])
+                if any(isinstance(n, ast.Name) and (n.id in gparams or n.id in _vertex_locals(fn, gparams)) for a in args for n in ast.walk(a)) and not any(kw.arg == "key" for kw in node.keywords):
+                    bad = node
+                    break
+        if bad is not None:
+            res.fail(construct, f"`{short(bad)}` orders vertices: unorderable vertex labels raise TypeError", mod, bad)
+        else:
+            res.ok(construct, "vertices are only hashed and compared for equality")
+    return res
+
+
+def _vertex_locals(fn: ast.AST, gparams: List[str]) -> Set[str]:
+    out: Set[str] = set()
+    changed = True
+    while changed:
+        changed = False
+        for node in walk_no_nested(fn):
+            tgt = val = None
+            if isinstance(node, ast.Assign) and len(node.targets) == 1 and isinstance(node.targets[0], ast.Name):
+                tgt, val = node.targets[0].id, node.value
+            elif isinstance(node, ast.For) and isinstance(node.target, ast.Name):
+                tgt, val = node.target.id, node.iter
+            if tgt and tgt not in out and val is not None and any(isinstance(n, ast.Name) and (n.id in gparams or n.id in out) for n in ast.walk(val)):
+                out.add(tgt)
+                changed = True
+    return out
+
+
+# ---------------------------------------------------------------------------
+# UPDATE-ALL-CANDIDATES
+
+
+def update_all_candidates(prog: Program) -> RuleResult:
+    res = RuleResult(
+        "UPDATE-ALL-CANDIDATES",
+        "Entry.update examines every candidate it is offered, in one loop over the parameter itself: the candidate "
+        "collection is not rebound, filtered or sliced beforehand (a pre-selection `candidates[:1]` under ANY drops a "
+        "tagged optimum behind an untagged one; offering the same candidates one call at a time must be equivalent)",
+    )
+    mod = prog.module(DP)
+    cls = prog.cls(DP, "Entry")
+    fn = method_def(cls, "update")
+    if fn is None:
+        raise AnalysisError("Entry.update not found")
+    var = fn.args.vararg.arg if fn.args.vararg else (func_params(fn)[1] if len(func_params(fn)) > 1 else None)
+    if var is None:
+        raise AnalysisError("Entry.update: candidate parameter not found")
+    construct = f"{DP}:Entry.update/all-candidates"
+    rebinds = [
+        st for st in walk_no_nested(fn)
+        if (isinstance(st, ast.Assign) and any(isinstance(t, ast.Name) and t.id == var for t in st.targets)
+            and not (isinstance(st.value, ast.Call) and dotted(st.value.func) in ("list", "tuple") and len(st.value.args) == 1 and dotted(st.value.args[0]) == var))
+        or (isinstance(st, ast.AugAssign) and isinstance(st.target, ast.Name) and st.target.id == var)
+    ]
+    loops = [l for l in walk_no_nested(fn) if isinstance(l, ast.For) and isinstance(l.iter, ast.Name) and l.iter.id == var]
+    if rebinds:
+        res.fail(construct, f"the candidates are replaced before they are examined (`{short(rebinds[0], 80)}`)", mod, rebinds[0])
+    elif len(loops) != 1:
+        res.fail(construct, f"expected one loop over `{var}` itself, found {len(loops)}", mod, fn)
+    elif any(isinstance(n, (ast.Break,)) for n in ast.walk(loops[0])):
+        res.fail(construct, "the loop over the candidates can stop early", mod, loops[0])
+    else:
+        res.ok(construct, f"one loop over `*{var}`, never rebound")
+    return res
+
+
 RULES = {
+    "UPDATE-ALL-CANDIDATES": update_all_candidates,
+    "HASH-CANONICAL": hash_canonical,
+    "NODE-OPAQUE": node_opaque,
+    "STALE-INPUT": stale_input,
+    "GAIN-AT-LCA": gain_at_lca,
+    "COST-NO-ROUNDING": cost_no_rounding,
+    "TREE-ITER-EXPLICIT": tree_iter_explicit,
+    "MASK-RANGE": mask_range,
     "CANDIDATE-GUARDS": candidate_guards,
     "CLI-FLOW-TABLE": cli_flow_table,
     "LOSS-WALK": loss_walk,
